@@ -176,6 +176,7 @@ type World struct {
 	store                                 *litestream.Store
 	client                                *file.ReplicaClient
 	gate                                  *gateClient
+	lagPos                                uint64
 	arch                                  *file.ReplicaClient
 	rng                                   *rand.Rand
 	forceL0                               string    // "" random | "off" | "far": what chooseL0R returns (directed scenarios)
@@ -462,7 +463,11 @@ func (w *World) latestOracle(what string) {
 
 func (w *World) record(code int, status int, aux uint64, args ...any) {
 	l := w.listing()
-	w.ops = append(w.ops, mop{code: code, args: args, status: status, aux: aux, pos: w.pos(), after: l})
+	pos := w.pos()
+	if w.lagPos > 0 {
+		pos = w.lagPos // the replica is behind: for the model the lagging syncs have not happened yet
+	}
+	w.ops = append(w.ops, mop{code: code, args: args, status: status, aux: aux, pos: pos, after: l})
 }
 
 func errStatus(err error, other int) int {
@@ -940,6 +945,64 @@ func (w *World) opL0Ret() {
 	w.trace = append(w.trace, fmt.Sprintf("l0ret(%v)", l0rStr(l0r)))
 	w.record(6, 0, 0, l0r)
 	w.latestOracle("EnforceL0RetentionByTime")
+}
+
+// opLaggedL0Ret: the replica is BEHIND the database (transactions synced locally, not uploaded yet) when
+// the level-0 retention pass runs with every replicated file old enough; afterwards the replica's cached
+// position is dropped (what any failed upload or a restart does) and the replica catches up. The newest
+// REPLICATED level-0 file anchors the replica position and must survive the pass (seed C07d: the guard
+// compared with the newest LOCAL file). For the model the lagging syncs happen when they are uploaded.
+func (w *World) opLaggedL0Ret() {
+	for i := 0; i < 2 && len(w.violations) == 0; i++ {
+		w.opSync()
+	}
+	if len(w.violations) > 0 {
+		return
+	}
+	w.opCompact(1)
+	if len(w.violations) > 0 {
+		return
+	}
+	ctx, cancel := context.WithTimeout(ctxb, 30*time.Second)
+	defer cancel()
+	before := w.pos()
+	t0 := time.Now()
+	for i := 0; i < 1; i++ { // one lagging file: the model's listing is compared after every replayed sync
+		if err := w.appWrite(); err != nil {
+			w.violate("harness/app-write", err.Error())
+			return
+		}
+		if err := w.ldb.Sync(ctx); err != nil {
+			w.violate("harness/sync", err.Error())
+			return
+		}
+	}
+	prev := w.forceL0
+	w.forceL0 = "far"
+	l0r := w.chooseL0R()
+	w.forceL0 = prev
+	err := w.ldb.EnforceL0RetentionByTime(ctx)
+	w.ldb.L0Retention = 0
+	if err != nil {
+		w.violate("harness/l0-retention-error", err.Error())
+		return
+	}
+	w.retFree = false
+	w.trace = append(w.trace, fmt.Sprintf("l0ret-while-replica-behind(%v)", l0rStr(l0r)))
+	w.lagPos = before
+	w.record(6, 0, 0, l0r)
+	w.lagPos = 0
+	w.counts["l0_retention_passes_with_replica_behind"]++
+	w.ldb.Replica.SetPos(ltx.Pos{})
+	if err := w.ldb.Replica.Sync(ctx); err != nil {
+		w.violate("C07/replica-cannot-catch-up-after-retention",
+			fmt.Sprintf("level-0 retention ran while the replica was behind (database at TXID %d, replica at %d); after the cached replica position was dropped, Replica.Sync fails: %v", w.pos(), before, err))
+		return
+	}
+	after := w.pos()
+	w.trace = append(w.trace, "catch-up")
+	w.absorb(before, after, t0)
+	w.latestOracle("EnforceL0RetentionByTime with the replica behind, then catch-up")
 }
 
 func (w *World) opStoreSnapRet() {
@@ -1478,7 +1541,11 @@ func runHistory(dir string, rng *rand.Rand, steps int, start time.Time, index in
 		case k < 82:
 			w.opTxidRet()
 		case k < 88:
-			w.opL0Ret()
+			if focus == "c07" && w.ret && rng.Intn(3) == 0 {
+				w.opLaggedL0Ret()
+			} else {
+				w.opL0Ret()
+			}
 		case k < 94:
 			w.opStoreSnapRet()
 		case k < 96:
